@@ -296,7 +296,7 @@ func (m *mappers) ToMatch(r comb.Result) (comb.Result, bool) {
 	r0, _ := r.Get(0)
 	r1, _ := r.Get(1)
 
-	nfa := r0.Val.(*auto.NFA)
+	nfa := dropNUL(r0.Val.(*auto.NFA))
 	var bag comb.Bag
 
 	if t, ok := r1.Val.(tuple[any, bool]); ok {
@@ -453,6 +453,37 @@ func runesToNFA(neg bool, runes ...rune) (*auto.NFA, []rune) {
 	}
 
 	return nfa, chars
+}
+
+// dropNUL returns the NFA of a match item without its transitions on the NUL character (U+0000).
+// NUL is never part of the input alphabet: the automata package reserves symbol 0 for ε (automata.E),
+// so a transition on NUL, as added by ".", negated classes and [:ascii:], would make the whole item optional.
+func dropNUL(n *auto.NFA) *auto.NFA {
+	hasNUL := false
+	for tr := range n.Transitions() {
+		if tr.Symbol == auto.E {
+			hasNUL = true
+			break
+		}
+	}
+
+	if !hasNUL {
+		return n
+	}
+
+	final := []auto.State{}
+	for f := range n.Final.All() {
+		final = append(final, f)
+	}
+
+	nfa := auto.NewNFA(n.Start, final)
+	for tr := range n.Transitions() {
+		if tr.Symbol != auto.E {
+			nfa.Add(tr.State, tr.Symbol, tr.Next)
+		}
+	}
+
+	return nfa
 }
 
 func containsRune(r rune, runes []rune) bool {
